@@ -42,7 +42,8 @@ class NormalizationInfo:
                 new_truth_table.append([not value for value in tt])
             else:
                 negations.append(False)
-                new_truth_table.append(tt)
+                # rows are compared with each other later, keep them all of one type
+                new_truth_table.append(list(tt))
         self.negations = negations
         return new_truth_table
 
